@@ -203,4 +203,10 @@ func e3Merge(c *Ctx, outs []*shardOut, bound int) {
 	r.Set("distinct_nontrivial", int64(outcomes))
 	r.Set("exhaustive", exhaustive && !r.TooMany())
 	r.Set("samples", samples)
+	// the free-running -race pass that bin/check runs before the thorough tier (a side condition, see racepass.go)
+	if v := os.Getenv("VERIF_RACE_RUNS"); v != "" {
+		if n, err := strconv.Atoi(v); err == nil {
+			r.Set("race_pass_runs", int64(n))
+		}
+	}
 }
